@@ -340,17 +340,28 @@ structure ShiftRow (α : Type) where
 /-- `(prop * len * u).long()` (truncation = floor, everything is non-negative). -/
 def shiftAmount (prop : Rat) (len : Nat) (u : Rat) : Nat := (prop * (len : Rat) * u).floor.toNat
 
-def ShiftRow.toPad (p0 p1 : Rat) (s : ShiftRow α) : PadRow α :=
-  ⟨s.x, s.len, shiftAmount p0 s.len s.u0, shiftAmount p1 s.len s.u1⟩
+/-- The `(2, N)` pad tensor of `random_shift`, with the arithmetic that turns a proportion, a length and a
+draw into a number of elements left abstract (`amt`): exact arithmetic (`shiftAmount`), or the double
+precision arithmetic of the repaired code (`shiftAmountF64`, below). -/
+def ShiftRow.toPadWith (amt : Rat → Nat → Rat → Nat) (p0 p1 : Rat) (s : ShiftRow α) : PadRow α :=
+  ⟨s.x, s.len, amt p0 s.len s.u0, amt p1 s.len s.u1⟩
 
-/-- `random_shift(input, in_lens, prop, mode, value, training)` → `(out, out_lens)`. -/
+def ShiftRow.toPad (p0 p1 : Rat) (s : ShiftRow α) : PadRow α := s.toPadWith shiftAmount p0 p1
+
+/-- `random_shift(input, in_lens, prop, mode, value, training)` → `(out, out_lens)`, for a given amount
+arithmetic `amt`. -/
+def randomShiftWith (amt : Rat → Nat → Rat → Nat) (pinned : Bool) (mode : Mode) (value : α) (T : Nat)
+    (p0 p1 : Rat) (training : Bool) (rows : List (ShiftRow α)) : Except Err (List (List α) × List Nat) :=
+  if training then
+    match padVariable pinned mode value T (rows.map (ShiftRow.toPadWith amt p0 p1)) with
+    | .error e => .error e
+    | .ok out => .ok (out, rows.map (fun s => (s.toPadWith amt p0 p1).newLen))
+  else .ok (rows.map (·.x), rows.map (·.len))
+
+/-- `random_shift` in exact (rational) arithmetic: `amt = shiftAmount`. -/
 def randomShift (pinned : Bool) (mode : Mode) (value : α) (T : Nat) (p0 p1 : Rat)
     (training : Bool) (rows : List (ShiftRow α)) : Except Err (List (List α) × List Nat) :=
-  if training then
-    match padVariable pinned mode value T (rows.map (ShiftRow.toPad p0 p1)) with
-    | .error e => .error e
-    | .ok out => .ok (out, rows.map (fun s => (s.toPad p0 p1).newLen))
-  else .ok (rows.map (·.x), rows.map (·.len))
+  randomShiftWith shiftAmount pinned mode value T p0 p1 training rows
 
 /-! ## shape validation: what each function accepts, as a function of the argument SHAPES
 
@@ -432,5 +443,12 @@ def shiftAmountF32 (prop : Rat) (len : Nat) (u : Rat) : Nat :=
 
 /-- the amount the repaired code adds: double precision, `prop` is a double already -/
 def shiftAmountF64 (prop : Rat) (len : Nat) (u : Rat) : Nat := shiftAmountR (roundBits 53) prop len u
+
+/-- `random_shift` as the repaired code computes it: the amounts in double precision (`prop` a double, the
+lengths converted to double, the float32 draws promoted), everything else as above. This — not the exact
+`randomShift` — is what the library does when a product lands within an ulp of an integer. -/
+def randomShiftF64 (pinned : Bool) (mode : Mode) (value : α) (T : Nat) (p0 p1 : Rat)
+    (training : Bool) (rows : List (ShiftRow α)) : Except Err (List (List α) × List Nat) :=
+  randomShiftWith shiftAmountF64 pinned mode value T p0 p1 training rows
 
 end PdtVerif.PadChunk
